@@ -49,6 +49,60 @@ var c03RoundTrip = probe.Define("C03", "roundtrip",
 		h2.MsgID += 0x01000001
 		h2.Exchange ^= 3
 		h2.Major, h2.Minor = h2.Minor, h2.Major
+		// ... and it edits the proposals it received before it sends them back: every transform attribute that came in the
+		// fixed-size (TV) format is changed to the variable-size format and vice versa, by setting the format and the field that
+		// goes with it - the field of the other format keeps the old value, as it does in any such edit.
+		wantPayloads := in.Msg.Payloads
+		{
+			edited := false
+			var out []model.Payload
+			for pi, p := range in.Msg.Payloads {
+				lsa, ok := dm.Payloads[pi].(*message.SecurityAssociation)
+				if p.SA == nil || !ok || model.PayloadSize(p) > 55000 {
+					out = append(out, p)
+					continue
+				}
+				sa := &model.SA{}
+				for _, pr := range p.SA.Proposals {
+					npr := pr
+					npr.Transforms = nil
+					for _, tr := range pr.Transforms {
+						if tr.Attr != nil {
+							a := *tr.Attr
+							if a.TV {
+								a = model.Attr{TV: false, Type: a.Type, Var: model.Bytes{byte(a.Value >> 8), byte(a.Value), 0x99}}
+							} else {
+								a = model.Attr{TV: true, Type: a.Type, Value: 0x1234}
+							}
+							tr.Attr = &a
+							edited = true
+						}
+						npr.Transforms = append(npr.Transforms, tr)
+					}
+					sa.Proposals = append(sa.Proposals, npr)
+				}
+				for _, lpr := range lsa.Proposals {
+					for _, c := range []message.TransformContainer{lpr.EncryptionAlgorithm, lpr.PseudorandomFunction, lpr.IntegrityAlgorithm, lpr.DiffieHellmanGroup, lpr.ExtendedSequenceNumbers} {
+						for _, lt := range c {
+							if !lt.AttributePresent {
+								continue
+							}
+							if lt.AttributeFormat == message.AttributeFormatUseTV {
+								lt.AttributeFormat = message.AttributeFormatUseTLV
+								lt.VariableLengthAttributeValue = []byte{byte(lt.AttributeValue >> 8), byte(lt.AttributeValue), 0x99}
+							} else {
+								lt.AttributeFormat = message.AttributeFormatUseTV
+								lt.AttributeValue = 0x1234
+							}
+						}
+					}
+				}
+				out = append(out, model.Payload{Kind: model.KSA, SA: sa})
+			}
+			if edited {
+				wantPayloads = out
+			}
+		}
 		shell, err := bridge.ToLib(model.Message{Header: h2})
 		if err != nil {
 			return probe.Fail("HARNESS: %v", err)
@@ -65,7 +119,7 @@ var c03RoundTrip = probe.Define("C03", "roundtrip",
 			if perr != nil {
 				return probe.Fail("the decoded message with edited header fields (variant %d) encodes to something that is not well-formed: %v", i, perr)
 			}
-			if d := model.Diff(model.Message{Header: h2, Payloads: in.Msg.Payloads}, pm); d != "" {
+			if d := model.Diff(model.Message{Header: h2, Payloads: wantPayloads}, pm); d != "" {
 				return probe.Fail("the decoded message, its header fields edited by the receiver (variant %d: 0 = in place, 1 = payload list moved into a new message), encodes to: %s", i, d)
 			}
 		}
